@@ -34,6 +34,7 @@ class RecordingTransport(Transport):
         self.fail_exc = TransportFailedError  # class raised for an injected fault
         self.fail_after_record = False  # the bytes reach the wire, THEN the write raises (e.g. drain() failing)
         self.hang_pred = None  # callable(line) -> bool: the write never completes (a hung link) until the caller is cancelled
+        self.delay = 0.0  # seconds of event-loop time every write takes before it succeeds (a slow link; virtual-time loop)
         self.on_write = None  # callable(line) run at the moment of a successful write
         self.connected = 0
         self.disconnected = 0
@@ -53,6 +54,8 @@ class RecordingTransport(Transport):
         return item
 
     async def write(self, decoded_message: str) -> None:
+        if self.delay:
+            await asyncio.sleep(self.delay)
         idx = len(self.attempts)
         if self.hang_pred is not None and self.hang_pred(decoded_message):
             self.attempts.append((self.step, decoded_message, True))
